@@ -294,6 +294,8 @@ def observe(desc):
             raise
         obs["outcome"] = ERR_CODES.get(outcome_class(e), -8)
         obs["error"] = f"{type(e).__name__}: {e}"[:200]
+        # what the class dictionary looks like after the failed decoration (no user code may be gone)
+        obs["after"] = [(n, classify(n, o, before, uid)) for n, o in dict(cls.__dict__).items()]
         return obs
     snap = dict(cls.__dict__)
     obs["after"] = [(n, classify(n, o, before, uid)) for n, o in snap.items()]
@@ -447,7 +449,7 @@ def random_desc(rng, nmax=5):
     if rng.random() < 0.3:
         c["key"] = rng.choice(pool + PRIVATE[:1])
     if rng.random() < 0.2:
-        c["overflow"] = rng.choice(["extra", "options"] + pool[:1])
+        c["overflow"] = rng.choice(["extra", "options", "_extras"] + pool[:1])
     for a in attrs:  # unannotated attributes reachable through attrs only
         if rng.random() < 0.1 and a["name"] in (c["attrs"] or []):
             a["ty"] = "noann"
@@ -477,6 +479,11 @@ FIXED.append({"attrs": [{"name": "a", "ty": "int", "decl": "none"}, {"name": "bs
               "cfg": base_cfg(attrs=["c"], attrs_skip=[])})
 FIXED.append({"attrs": [{"name": "a", "ty": "int", "decl": "none"}, {"name": "ms", "ty": "dict", "decl": "none"}],
               "cfg": base_cfg(attrs_typed=[("ds", "list")], attrs_skip=[], lazy=False)})
+
+
+# a private overflow attribute is a private name in the decorator's attribute table: must be refused
+FIXED.append({"attrs": [{"name": "a", "ty": "int", "decl": "none"}], "cfg": base_cfg(overflow="_extras")})
+FIXED.append({"attrs": [{"name": "a", "ty": "int", "decl": "none"}], "cfg": base_cfg(overflow="_extras", attrs=["a"], lazy=False)})
 
 
 def expected_generated(desc):
@@ -679,6 +686,80 @@ def hier_run(case):
     return fails
 
 
+# a spec subclass adding an attribute whose name is the singular form of an inherited collection:
+# the parent (helpers, item names, dictionary) must be untouched, the subclass gets the element
+# helpers under the fallback name and the scalar helpers under the plain name (oracle in Python)
+COLL_PAIRS = [("foos", "foo"), ("values", "value"), ("boxes", "box"), ("entries", "entry")]
+
+
+def hier_collision_run(case):
+    import typing as _t
+    from spec_classes.methods.base import MethodDescriptor
+    w = world()
+    plural, singular = case["plural"], case["singular"]
+    T = {"list": _t.List[int], "dict": _t.Dict[str, int], "set": _t.Set[int]}[case["ty"]]
+    P = w.spec_class(bootstrap=not case["lazy"])(type("P", (), {"__annotations__": {plural: T, "other": int}, "other": 1}))
+    P.__spec_class__
+    if case["use_parent_first"]:
+        for n in list(P.__dict__):
+            if not n.startswith("__"):
+                getattr(P, n)
+    names_before = set(P.__dict__)
+    item_before = P.__spec_class__.attrs[plural].item_name
+    spec_before = P.__spec_class__.attrs[plural]
+    fails = []
+    try:
+        S = w.spec_class(bootstrap=not case["lazy"])(type("S", (P,), {"__annotations__": {singular: int}, singular: 5}))
+        S.__spec_class__
+        s_inst = S()
+    except BaseException as e:
+        if isinstance(e, (KeyboardInterrupt, SystemExit)):
+            raise
+        return [f"subclass cannot be decorated/instantiated: {type(e).__name__}: {e}"[:200]]
+    for K in (S, P):
+        for n in list(K.__dict__):
+            if not n.startswith("__"):
+                try:
+                    getattr(K, n)
+                    getattr(K(), n)
+                except BaseException as e:
+                    if isinstance(e, (KeyboardInterrupt, SystemExit)):
+                        raise
+    if set(P.__dict__) != names_before:
+        fails.append(f"parent dictionary changed: +{sorted(set(P.__dict__) - names_before)} -{sorted(names_before - set(P.__dict__))}")
+    if P.__spec_class__.attrs[plural] is not spec_before or P.__spec_class__.attrs[plural].item_name != item_before:
+        fails.append(f"parent's item name for {plural} is now {P.__spec_class__.attrs[plural].item_name!r} (was {item_before!r})")
+    for n, o in P.__dict__.items():
+        if isinstance(o, MethodDescriptor):
+            fails.append(f"P.__dict__[{n!r}] is still a descriptor")
+        elif not n.startswith("__") and callable(o) and getattr(o, "__name__", n) != n:
+            fails.append(f"P.__dict__[{n!r}] holds a function named {o.__name__!r}")
+    want = [f"{p}_{plural}_item" for p in ("with", "update", "transform", "without")] + \
+           [f"{p}_{singular}" for p in ("with", "update", "transform", "reset")]
+    missing = [n for n in want if n not in S.__dict__]
+    if missing:
+        fails.append(f"subclass lacks its own helpers {missing}")
+    elem = {"list": 3, "dict": ("k", 3), "set": 3}[case["ty"]]
+    try:
+        args = elem if isinstance(elem, tuple) else (elem,)
+        r1 = getattr(s_inst, f"with_{plural}_item")(*args)
+        r2 = s_inst.__class__().__getattribute__(f"with_{singular}")(9)
+        r3 = getattr(P(), f"with_{item_before}")(*args)
+        ok = (len(getattr(r1, plural)) == 1 and getattr(r2, singular) == 9 and len(getattr(r3, plural)) == 1)
+        if not ok:
+            fails.append("helpers do not do what their names say")
+    except BaseException as e:
+        if isinstance(e, (KeyboardInterrupt, SystemExit)):
+            raise
+        fails.append(f"helper call failed: {type(e).__name__}: {e}"[:200])
+    return fails
+
+
+def hier_collision_generate():
+    return [{"plural": p, "singular": s_, "ty": ty, "lazy": lz, "use_parent_first": up}
+            for p, s_ in COLL_PAIRS for ty in ("list", "dict", "set") for lz in (False, True) for up in (False, True)]
+
+
 def hier_generate(rng, tier):
     quick = tier == "quick"
     parents = [dict(FIXED[0], occupied=[], inst=True), dict(FIXED[1], occupied=[], inst=True), dict(FIXED[3], occupied=[], inst=True)]
@@ -767,6 +848,10 @@ def main(tier, replay=None):
     chk = Check("C16", tier)
     if replay:
         r = json.load(open(replay))
+        if "hier_collision" in r:
+            fails = hier_collision_run(r["hier_collision"])
+            print("replay:", "still failing code=2" if fails else "passes now", fails[:5])
+            return 1 if fails else 0
         if "hier" in r:
             r["hier"]["desc"] = fix_desc(r["hier"]["desc"])
             fails = hier_run(r["hier"])
@@ -829,6 +914,18 @@ def main(tier, replay=None):
                       f"{[(a['name'], a['ty']) for a in hc['desc']['attrs']]} name={hc['name']} subclass={hc['sub']} "
                       f"defines it as {hc['occ']}, first use via {hc['access']}: {fails[:3]}",
                       {"hier": hc, "failures": fails, "code": 2, "replay": "bin/check C16 --replay <this file>"}, sig=sig)
+    hcoll = hier_collision_generate()
+    hcoll_failed = 0
+    for hc in hcoll:
+        fails = hier_collision_run(hc)
+        if not fails:
+            continue
+        hcoll_failed += 1
+        if hcoll_failed <= 3:
+            chk.violation(f"a spec subclass adding {hc['singular']!r} next to the inherited collection {hc['plural']!r} ({hc['ty']}, "
+                          f"lazy={hc['lazy']}, parent used first={hc['use_parent_first']}): {fails[:3]}",
+                          {"hier_collision": hc, "failures": fails, "code": 2, "replay": "bin/check C16 --replay <this file>"},
+                          sig={"code": 2, "kind": "hierarchy_collision", "ty": hc["ty"], "lazy": hc["lazy"]})
     for lg in logs:
         chk.violation("correspondence evaluation failed: " + lg[-500:], {"kind": "coq-eval", "log": lg}, no_input=True)
     kinds, outcomes, nattrs, occk, tys, lazy = {}, {}, {}, {}, {}, {}
@@ -852,6 +949,7 @@ def main(tier, replay=None):
     extra = {
         "correspondence": {"cases": len(cases), "disagreements": len(bad), "by_generator": kinds,
                            "hierarchy_probes": len(hier), "hierarchy_probe_failures": hier_failed,
+                           "hierarchy_collision_probes": len(hcoll), "hierarchy_collision_failures": hcoll_failed,
                            "outcome_histogram": outcomes, "attribute_count_histogram": nattrs,
                            "occupied_kind_histogram": occk, "attribute_type_histogram": tys,
                            "lazy_histogram": lazy, "generated_entries_compared": gen_names,
